@@ -150,6 +150,10 @@ func (fc *FnCtx) unknownCall(fr *Frame, st *State, reach, what string, resT *typ
 				}
 			}
 		}
+		if ptrArg && pureExternal(what) {
+			fc.assumption("A-EXT-PURE external callee that only stores or formats its arguments (no effect on tchannel objects): " + what)
+			ptrArg = false
+		}
 		if ptrArg {
 			fc.assumption("unmodelled external callee given a tchannel object (all heap havocked): " + what)
 			fc.havocAll(st)
@@ -481,4 +485,19 @@ func (fc *FnCtx) staticDispatch(recv Val, m *types.Func) *ssa.Function {
 		return nil
 	}
 	return fc.eng.prog.MethodValue(sel)
+}
+
+
+// pureExternal: standard-library functions that keep or format the objects
+// they are given but never call back into them in a way that mutates tchannel
+// state (context values, formatting, string and time helpers).
+func pureExternal(name string) bool {
+	name = strings.TrimPrefix(name, "(")
+	name = strings.TrimPrefix(name, "*")
+	for _, p := range []string{"context.", "golang.org/x/net/context.", "fmt.", "strings.", "strconv.", "errors.", "time.", "math.", "github.com/opentracing/opentracing-go", "unicode", "net.", "os.", "runtime.", "reflect.", "sync/atomic.", "go.uber.org/atomic."} {
+		if strings.HasPrefix(name, p) {
+			return true
+		}
+	}
+	return false
 }
